@@ -233,8 +233,10 @@ mutual
             else if isLaLvl = na then none
             else
               match r with
-              | .kw .not :: .id ty :: r' => loop f m (naOf isNotRuleLvl isAssoc) (.isop true lhs ty) r'
-              | .id ty :: r' => loop f m (naOf isRuleLvl isAssoc) (.isop false lhs ty) r'
+              -- the right operand of IS is a TypeExpr: after it only the reduction is possible, so the
+              -- non-associativity of P_IS never produces an error (`a IS T IS U` = `(a IS T) IS U`)
+              | .kw .not :: .id ty :: r' => loop f m 0 (.isop true lhs ty) r'
+              | .id ty :: r' => loop f m 0 (.isop false lhs ty) r'
               | _ => none
         | .kw .if :: r =>
             if ifLaLvl < m then some (lhs, ts)
